@@ -67,6 +67,10 @@ public class RefServer {
     static final String DSIG_NS = "http://www.w3.org/2000/09/xmldsig#";
 
     static DocumentBuilderFactory dbf;
+    // VERIFY parses with CDATA sections converted to text and merged with their neighbours:
+    // the JDK's XML-DSig unmarshaller reads only the first Text node of SignatureValue,
+    // DigestValue, Modulus ..., and the XPath data model has no CDATA anyway.
+    static DocumentBuilderFactory dbfCoalescing;
 
     static String algURI(String alg) throws Exception {
         switch (alg) {
@@ -86,12 +90,12 @@ public class RefServer {
         }
     }
 
-    static void initParser() throws Exception {
-        dbf = DocumentBuilderFactory.newInstance();
+    static DocumentBuilderFactory newFactory(boolean coalescing) throws Exception {
+        DocumentBuilderFactory dbf = DocumentBuilderFactory.newInstance();
         dbf.setNamespaceAware(true);
         dbf.setValidating(false);
         dbf.setIgnoringComments(false);
-        dbf.setCoalescing(false);
+        dbf.setCoalescing(coalescing);
         dbf.setExpandEntityReferences(true);
         dbf.setXIncludeAware(false);
         dbf.setFeature(XMLConstants.FEATURE_SECURE_PROCESSING, true);
@@ -105,10 +109,20 @@ public class RefServer {
         } catch (Exception e) {
             // ignore
         }
+        return dbf;
+    }
+
+    static void initParser() throws Exception {
+        dbf = newFactory(false);
+        dbfCoalescing = newFactory(true);
     }
 
     static Document parse(byte[] xml) throws Exception {
-        DocumentBuilder db = dbf.newDocumentBuilder();
+        return parse(xml, dbf);
+    }
+
+    static Document parse(byte[] xml, DocumentBuilderFactory f) throws Exception {
+        DocumentBuilder db = f.newDocumentBuilder();
         db.setErrorHandler(new ErrorHandler() {
             public void warning(SAXParseException e) { }
             public void error(SAXParseException e) throws SAXParseException { throw e; }
@@ -312,7 +326,7 @@ public class RefServer {
             CertificateFactory cf = CertificateFactory.getInstance("X.509");
             pk = cf.generateCertificate(new ByteArrayInputStream(certDER)).getPublicKey();
         }
-        Document doc = parse(xml);
+        Document doc = parse(xml, dbfCoalescing);
         Element root = doc.getDocumentElement();
         registerIds(root);
         Element sigEl = firstSignature(root);
